@@ -174,6 +174,17 @@ prchunk_fill(prch_ctx_t ctx)
 	}
 
 yield1:
+	if (UNLIKELY(bno + CHUNK_SIZE >= ctx->buf + MAX_NLINES * MAX_LLEN)) {
+		/* no room for another chunk, hand out the lines we've got
+		 * and come back for the rest, someone will move it to the
+		 * front */
+		if (UNLIKELY(off == ctx->buf)) {
+			/* one line filling the whole buffer, hand that out */
+			set_loff(ctx, ctx->tot_lno++, bno - ctx->buf);
+			off = bno;
+		}
+		YIELD(3);
+	}
 	/* read CHUNK_SIZE bytes */
 	bno += (nrd = read(ctx->fd, bno, CHUNK_SIZE));
 	/* if we came from yield2 then off == __ctx->bno, and if we
